@@ -14,9 +14,12 @@ import (
 
 // tiny: minimal with short vectors and low list limits, so that lists are often AT their limit,
 // index wrap-around is reached with small numbers and whole states stay small.
+// VALIDATOR_REGISTRY_LIMIT stays above 32: with <= 32 the participation lists are a single chunk
+// (tree depth 0), a shape outside every preset, on which ztyp's SubtreeFillToLength(…, 0, 0)
+// underflows (FillZeroes(0) panicked) — recorded as a false alarm of the generator, not a finding.
 var tinyOverride = map[string]uint64{
 	"SLOTS_PER_EPOCH": 4, "SLOTS_PER_HISTORICAL_ROOT": 8, "EPOCHS_PER_HISTORICAL_VECTOR": 8, "EPOCHS_PER_SLASHINGS_VECTOR": 4,
-	"VALIDATOR_REGISTRY_LIMIT": 16, "SYNC_COMMITTEE_SIZE": 8, "HISTORICAL_ROOTS_LIMIT": 8, "EPOCHS_PER_ETH1_VOTING_PERIOD": 2,
+	"VALIDATOR_REGISTRY_LIMIT": 40, "SYNC_COMMITTEE_SIZE": 8, "HISTORICAL_ROOTS_LIMIT": 8, "EPOCHS_PER_ETH1_VOTING_PERIOD": 2,
 	"MAX_ATTESTATIONS": 4, "PENDING_DEPOSITS_LIMIT": 8, "PENDING_PARTIAL_WITHDRAWALS_LIMIT": 4, "PENDING_CONSOLIDATIONS_LIMIT": 4,
 }
 
@@ -205,12 +208,12 @@ func drawLen(rt *rapid.T, limit uint64, label string) int {
 	case 1:
 		return int(min(limit, 1))
 	case 2, 3:
-		if limit <= 16 {
+		if limit <= 48 {
 			return int(limit) // at the limit: appends must fail cleanly
 		}
 		return int(hi)
 	case 4:
-		if limit <= 17 && limit > 0 {
+		if limit <= 48 && limit > 0 {
 			return int(limit - 1)
 		}
 		return int(hi)
